@@ -303,6 +303,7 @@ class World:
         dv = float(np.linalg.norm(got[3:] - want[3:]))
         ctx.checks += 1
         ctx.probe("vector_checked")
+        ctx.ev("vector", a, b, fhex(got))
         ctx.observe("pos_err_over_tol", dp / tp)
         ctx.observe("vel_err_over_tol", dv / tv)
         if self.history_nontrivial:
